@@ -435,21 +435,41 @@ def r22_bound_kind(ctx):
     rep.need_anchor(rule, "bounds-checker calls")
     # the checker itself
     bc = ctx.func("data._bounds_checker")
-    cmps = set()
-    for n in walk_no_nested(bc.node):
-        if isinstance(n, ast.Compare) and len(n.ops) == 1 and \
-                U(n.left) == bc.params[0]:
-            cmps.add((type(n.ops[0]).__name__, U(n.comparators[0])))
-    want = {("IsNot", "None"), ("Lt", "min_val"), ("Gt", "max_val"),
-            ("GtE", "upper_val")}
-    raises = [n for n in walk_no_nested(bc.node) if isinstance(n, ast.Raise)]
-    rep.check(cmps == want and len(raises) == 1, rule,
+    from ..boolsim import decision_table
+    if len(bc.params) < 5:
+        raise AnalysisError("_bounds_checker: parameters (value, name, "
+                            "min_val, max_val, upper_val) not found")
+    v_, _n, mn_, mx_, up_ = bc.params[:5]
+    atoms, table = decision_table(bc.node)
+    A = {"none": (v_, "is", "None"), "lt": (v_, "<", mn_),
+         "mxnone": (mx_, "is", "None"), "gt": (mx_, "<", v_),
+         "upnone": (up_, "is", "None"), "ltup": (v_, "<", up_)}
+    unknown = [a for a in atoms if a not in A.values()]
+    lacking = [k for k, a in A.items() if a not in atoms]
+    bad_rows = []
+    if not unknown and not lacking:
+        idx = {a: i for i, a in enumerate(atoms)}
+        for bits, out in table.items():
+            g = {k: bits[idx[a]] for k, a in A.items()}
+            want_raise = (not g["none"]) and (
+                g["lt"] or (not g["mxnone"] and g["gt"]) or
+                (not g["upnone"] and not g["ltup"]))
+            if (out == "raise") != want_raise:
+                bad_rows.append(({k: v for k, v in g.items()}, out))
+    rep.check(not unknown and not lacking and not bad_rows, rule,
               ctx.fkey(bc, None, "semantics"), bc.loc(),
-              "_bounds_checker refuses value < min, value > max "
-              "(inclusive) and value >= upper (exclusive)",
-              "_bounds_checker compares %s; expected %s" % (
-                  sorted(cmps), sorted(want)), P)
+              "_bounds_checker refuses exactly value < min, value > max "
+              "(inclusive) and value >= upper (exclusive), for a value that "
+              "is not None: decision table over %d comparison atoms "
+              "(%d rows) equals the expected one" % (len(atoms), len(table)),
+              "_bounds_checker's decision table differs from `value is not "
+              "None and (value < min or (max is not None and value > max) "
+              "or (upper is not None and value >= upper))`: %s" % (
+                  ("unexpected comparisons %s" % unknown) if unknown else
+                  ("missing comparisons %s" % lacking) if lacking else
+                  ("e.g. %s -> %s" % bad_rows[0]) if bad_rows else ""), P)
     cb = ctx.func("data.TimePoint._check_bounds")
+    zero24 = set()
     for f in (cb, ctx.func("data.TimePoint.__init__"),
               ctx.func("data.TimeZone.__init__")):
         for c in walk_no_nested(f.node):
@@ -457,54 +477,74 @@ def r22_bound_kind(ctx):
                     "_bounds_checker" and len(c.args) >= 2):
                 continue
             rep.anchor(rule, "bounds-checker calls")
-            kw = {k.arg: k.value for k in c.keywords}
-            fld = U(c.args[0])
-            name = U(c.args[1]).strip("'\"")
-            mn = U(kw["min_val"]) if "min_val" in kw else (
-                U(c.args[2]) if len(c.args) > 2 else None)
-            mx = U(kw["max_val"]) if "max_val" in kw else None
-            up = U(kw["upper_val"]) if "upper_val" in kw else None
-            key = ctx.fkey(f, None, "bounds:%s:%s" % (name, mx or up))
-            ok, why = True, ""
-            if name.endswith("_decimal"):
-                ok = mn == "0" and up == "1" and mx is None
-                why = "a decimal part lies in [0, 1)"
-            elif name == "hour_of_day":
-                ok = mn == "0" and mx is not None and "HOURS_IN_DAY" in mx
-                why = "hours run 0..24 inclusive (24:00)"
-            elif name in ("minute_of_hour", "second_of_minute"):
-                if mx == "0":
-                    ok = mn == "0"
-                    why = "24:xx admits only 24:00:00"
-                else:
-                    ok = mn == "0" and up is not None and mx is None
-                    why = "minutes/seconds run 0..59: exclusive upper bound"
-            elif name in ("month_of_year", "day_of_month", "week_of_year",
-                          "day_of_year", "day_of_week"):
-                ok = mn == "1" and mx is not None and up is None
-                why = "a 1-based field is bounded inclusively by its length"
-            elif name == "TimeZone hours":
-                ok = mn == "-99" and mx == "99"
-                why = "zone hours lie in -99..99"
-            elif name == "TimeZone minutes":
-                ok = mn is not None and mx is not None and \
-                    _sign_window(f, mn, mx)
-                why = "zone minutes lie within the sign-dependent window " \
-                    "(1-60..60-1, one-sided when the hours are signed)"
-            rep.check(ok, rule, key, f.loc(c),
-                      "%s: %s" % (name, why),
-                      "%s is checked with min_val=%s max_val=%s "
-                      "upper_val=%s, but %s" % (name, mn, mx, up, why), P)
+            from ..flow import call_alternatives, cond_text
+            calts = call_alternatives(f.node, c, f.params)
+            if calts is None:
+                rep.error("R22", "%s: arguments of %s not resolved" % (
+                    f.qual, U(c)[:60]))
+                continue
+            for kw, conds in calts:
+                fld = U(c.args[0])
+                name = U(c.args[1]).strip("'\"")
+                mn = U(kw["min_val"]) if "min_val" in kw else (
+                    U(c.args[2]) if len(c.args) > 2 else None)
+                mx = U(kw["max_val"]) if "max_val" in kw else None
+                up = U(kw["upper_val"]) if "upper_val" in kw else None
+                key = ctx.fkey(f, None, "bounds:%s:%s" % (name, mx or up))
+                ok, why = True, ""
+                if name.endswith("_decimal"):
+                    ok = mn == "0" and up == "1" and mx is None
+                    why = "a decimal part lies in [0, 1)"
+                elif name == "hour_of_day":
+                    ok = mn == "0" and mx is not None and \
+                        "HOURS_IN_DAY" in mx
+                    why = "hours run 0..24 inclusive (24:00)"
+                elif name in ("minute_of_hour", "second_of_minute"):
+                    is24 = [pol for t, pol in conds
+                            if "_hour_of_day ==" in U(t) and
+                            "HOURS_IN_DAY" in U(t)] + [
+                                not pol for t, pol in conds
+                                if "_hour_of_day !=" in U(t) and
+                                "HOURS_IN_DAY" in U(t)]
+                    if mx == "0":
+                        ok = mn == "0" and up is None and is24 == [True]
+                        why = "24:xx admits only 24:00:00 (and only 24:xx " \
+                            "is restricted to zero)"
+                        if ok:
+                            zero24.add(name)
+                    else:
+                        ok = mn == "0" and up is not None and mx is None
+                        why = "minutes/seconds run 0..59: exclusive upper " \
+                            "bound"
+                        if is24 == [True]:
+                            ok = False
+                            why = "at hour 24 only 24:00:00 is admitted"
+                elif name in ("month_of_year", "day_of_month",
+                              "week_of_year", "day_of_year", "day_of_week"):
+                    ok = mn == "1" and mx is not None and up is None
+                    why = "a 1-based field is bounded inclusively by its " \
+                        "length"
+                elif name == "TimeZone hours":
+                    ok = mn == "-99" and mx == "99"
+                    why = "zone hours lie in -99..99"
+                elif name == "TimeZone minutes":
+                    raw = {k.arg: U(k.value) for k in c.keywords if k.arg}
+                    ok = "min_val" in raw and "max_val" in raw and \
+                        _sign_window(f, raw["min_val"], raw["max_val"])
+                    key = ctx.fkey(f, None, "bounds:%s:%s" % (
+                        name, raw.get("max_val")))
+                    why = "zone minutes lie within the sign-dependent " \
+                        "window (1-60..60-1, one-sided when the hours are " \
+                        "signed)"
+                rep.check(ok, rule, key, f.loc(c),
+                          "%s: %s" % (name, why),
+                          "%s is checked with min_val=%s max_val=%s "
+                          "upper_val=%s%s, but %s" % (
+                              name, mn, mx, up,
+                              (" under " + cond_text(conds)[:120])
+                              if conds else "", why), P)
     # 24:xx guard present
-    has24 = False
-    for n in walk_no_nested(cb.node):
-        if isinstance(n, ast.If) and "_hour_of_day ==" in U(n.test) and \
-                "HOURS_IN_DAY" in U(n.test):
-            zero = [c for c in ast.walk(n) if isinstance(c, ast.Call) and any(
-                k.arg == "max_val" and U(k.value) == "0" for k in c.keywords)]
-            names = {U(c.args[1]).strip("'") for c in zero if c in [
-                x for st in n.body for x in ast.walk(st)]}
-            has24 = {"minute_of_hour", "second_of_minute"} <= names
+    has24 = {"minute_of_hour", "second_of_minute"} <= zero24
     rep.check(has24, rule, ctx.fkey(cb, None, "24-only-24:00"), cb.loc(),
               "hour 24 forces minute and second to zero",
               "_check_bounds no longer restricts hour 24 to 24:00:00", P)
